@@ -196,7 +196,6 @@ func checkC06(c *Ctx) {
 	isJoiner := c.E().modeMethod("IsJoiner")
 	pudGiven := c.E().pudField("modeGiven")
 	unset := c.konst("server/store/types", "ModeUnset")
-	modeOwner := c.konst("server/store/types", "ModeOwner")
 	ownerChange := c.E().storeIface("TopicsPersistenceInterface", "OwnerChange")
 	subsCreate := c.E().storeIface("SubsPersistenceInterface", "Create")
 
@@ -278,6 +277,25 @@ func checkC06(c *Ctx) {
 	_ = nSelf
 	_ = nOther
 
+	c.checkOwnerTransfer()
+
+	c.checkC06Deletes()
+	c.checkOwnerOnlyOps()
+	c.checkOwnerWriters()
+	c.checkOfflineOwnership()
+	c.checkOwnerBitSources()
+}
+
+// checkOwnerTransfer: (2) the two-step ownership transfer (also run under C07 and C08: the cached
+// record of the previous owner is part of what those properties rely on).
+func (c *Ctx) checkOwnerTransfer() {
+	r := c.R
+	owner := c.E().topicField("owner")
+	modeOwner := c.konst("server/store/types", "ModeOwner")
+	ownerChange := c.E().storeIface("TopicsPersistenceInterface", "OwnerChange")
+	saved := core.ExtraNilness
+	core.ExtraNilness = errorsNewNonNil
+	defer func() { core.ExtraNilness = saved }()
 	// (2) transfer
 	r.Floor("C06.2-transfer-order", 2)
 	for _, a := range c.censusField(owner) {
@@ -325,12 +343,6 @@ func checkC06(c *Ctx) {
 			r.Check(!found, "C06.2c-previous-owner-cache", fk(fn)+": perUser[t.owner] rewritten before t.owner changes", c.pos(st), "", "t.owner changes while the cached record of the previous owner still has O")
 		}
 	}
-
-	c.checkC06Deletes()
-	c.checkOwnerOnlyOps()
-	c.checkOwnerWriters()
-	c.checkOfflineOwnership()
-	c.checkOwnerBitSources()
 }
 
 func errorsNewNonNil(v ssa.Value) (bool, bool) {
@@ -519,8 +531,30 @@ func (c *Ctx) checkOwnerOnlyOps() {
 				n, ok := v.Type().(*types.Named)
 				return ok && n.Obj().Name() == "Uid"
 			}, true))
-			gs = append(gs, core.EqGuard("cat==P2P", core.Or(core.IsFieldLoad(catF), func(v ssa.Value) bool { return true }), core.IsConstOf(p2p), true))
+			// the category is Topic.cat for a loaded topic, the result of topicCat(name) for an offline one:
+			// any value of the category type (not any integer that happens to equal the constant)
+			gs = append(gs, core.EqGuard("cat==P2P", core.Or(core.IsFieldLoad(catF), func(v ssa.Value) bool {
+				n, ok := v.Type().(*types.Named)
+				return ok && n.Obj().Name() == "TopicCat"
+			}), core.IsConstOf(p2p), true))
 			gs = append(gs, core.BoolGuard("IsOwner(stored want&given)", core.IsCallTo(isOwner, c.isEffModeSub()), true))
+			// an offline name nobody is subscribed to: p2p by its spelling (the name may be anything the
+			// client sent, so the category cannot be computed)
+			gs = append(gs, core.Guard{Name: "HasPrefix(name, \"p2p\")", Match: func(a core.CondAtom) (bool, bool) {
+				call, ok := a.Val.(*ssa.Call)
+				if a.Op != token.ILLEGAL || !ok {
+					return false, false
+				}
+				f := core.CalleeOf(&call.Call)
+				if f == nil || f.FullName() != "strings.HasPrefix" || len(call.Call.Args) < 2 {
+					return false, false
+				}
+				k, ok := call.Call.Args[1].(*ssa.Const)
+				if !ok || k.Value == nil || k.Value.Kind() != constant.String || constant.StringVal(k.Value) != "p2p" {
+					return false, false
+				}
+				return true, true
+			}})
 			ok, _ := core.GuardedBy(fn, site.(ssa.Instruction), gs...)
 			r.Check(ok, "C06.5-owner-only-ops", fk(fn)+": Topics.Delete", c.pos(site),
 				"reachable only for the owner (or a p2p topic's last subscriber)", "a non-owner can delete the topic for everybody")
